@@ -322,7 +322,8 @@ class Stream:
                 ctx.dist(f'{self.name}:rejected-by-driver')
             if e != g:
                 bad.append((req, e, g, meta))
-        ctx.cov['disagreements_checked'] += len(self.reqs)
+        ctx.cov['comparisons'] = ctx.cov.get('comparisons', 0) + len(self.reqs)
+        ctx.cov['disagreements_checked'] += len(bad)
         return bad
 
 
@@ -635,7 +636,8 @@ def format_and_read(ctx, rng, raws, cases, s_fmt, s_read, programs):
             ctx_.dist('read:outcome:' + (e.split()[0] if e.startswith(('err', 'mol')) else 'roles'))
             if norm(e) != g2:
                 bad.append((req, e, g2, meta))
-        ctx_.cov['disagreements_checked'] += len(s_read.reqs)
+        ctx_.cov['comparisons'] = ctx_.cov.get('comparisons', 0) + len(s_read.reqs)
+        ctx_.cov['disagreements_checked'] += len(bad)
         return bad
     s_read.run = run
 
